@@ -184,6 +184,18 @@ impl<'tcx> Ex<'tcx> {
                 if let ty::FnDef(did, _) = *c.const_.ty().kind() {
                     let n = with_no_trimmed_paths!(self.tcx.def_path_str(did));
                     extra = format!(",\"fndef\":{}", js(&n));
+                    // tuple-struct / tuple-variant constructors used as functions
+                    if let DefKind::Ctor(of, _) = self.tcx.def_kind(did) {
+                        let vdid = self.tcx.parent(did);
+                        let (adt, variant) = match of {
+                            rustc_hir::def::CtorOf::Variant => {
+                                (self.tcx.parent(vdid), self.tcx.item_name(vdid).to_string())
+                            }
+                            rustc_hir::def::CtorOf::Struct => (vdid, String::new()),
+                        };
+                        let a = with_no_trimmed_paths!(self.tcx.def_path_str(adt));
+                        extra.push_str(&format!(",\"ctor_adt\":{},\"ctor_variant\":{}", js(&a), js(&variant)));
+                    }
                 }
                 format!("{{\"k\":\"const\",\"v\":{},\"ty\":{}{}}}", js(&s), js(&t), extra)
             }
@@ -290,9 +302,17 @@ impl<'tcx> Ex<'tcx> {
                 reachable = tcx.effective_visibilities(()).is_reachable(l);
             }
         }
+        // captured places of a closure, in the order of the closure aggregate's operands
+        let mut caps: Vec<String> = vec![];
+        if matches!(dk, DefKind::Closure) {
+            if let Some(l) = did.as_local() {
+                caps = tcx.closure_captures(l).iter().map(|c| js(&c.to_string(tcx))).collect();
+            }
+        }
+        let _ = write!(out, "{{\"caps\":[{}],", caps.join(","));
         let _ = write!(
             out,
-            "{{\"fn\":{},\"kind\":{},\"parent\":{},\"self_ty\":{},\"vis\":{},\"reachable\":{},\"file\":{},\"lo\":{},\"hi\":{},\"argc\":{},\"locals\":[",
+            "\"fn\":{},\"kind\":{},\"parent\":{},\"self_ty\":{},\"vis\":{},\"reachable\":{},\"file\":{},\"lo\":{},\"hi\":{},\"argc\":{},\"locals\":[",
             js(name),
             js(kind),
             js(&parent),
